@@ -107,6 +107,9 @@ class StartOrderMonitor(Monitor):
             self.lost_seen[(inst.idx, inst.incarnation, identifier)] = inst.world.now
 
     def on_publication(self, inst, ptype, body):
+        if ptype.name == 'STATE' and body.get('fsm_statename') not in WORKING:
+            # jobs are aborted when the instance leaves the working states (ELECTION, ending states, ...)
+            self.left_working[(inst.idx, inst.incarnation)] = inst.world.now
         if ptype.name == 'PROCESS' and body.get('forced') and int(body['state']) == FATAL:
             namespec = f"{body['group']}:{body['name']}"
             self.forced[(inst.idx, inst.incarnation, namespec)] = inst.world.now
@@ -299,9 +302,9 @@ class StartOrderMonitor(Monitor):
                 continue
             for q in other['programs']:
                 rec = pend.get(q['namespec'])
-                # NOTE: only requests of a job that the emitter still follows: after an abort (ELECTION, ending) the
-                #       applications are planned again from scratch and a later trigger is not bound by the dropped job
-                if rec is not None and rec.get('job') is not None and id(rec['job'].ref) not in live_jobs:
+                # NOTE: not the requests made before the emitter last left the working states: its jobs were aborted
+                #       (ELECTION, ending), the applications are planned again and a later trigger is not bound by them
+                if rec is not None and self.left_working.get(key, -1) >= rec['time']:
                     continue
                 if rec is not None and q['start_sequence'] > 0 and not self._resolved(inst, q['namespec'], rec):
                     self.findings.append(('start-order:application', f'{where} (application start_sequence '
